@@ -54,7 +54,7 @@ def face_dirs(entry):
     return out
 
 
-OFF_VARIANTS = ("topology_offcentres", "ugrid_offcentres")
+OFF_VARIANTS = ("topology_offcentres", "ugrid_offcentres", "topology_offcentres_rev")
 
 
 def off_face_dirs(entry):
@@ -84,7 +84,8 @@ def build_grid(entry, variant="topology"):
     variant 'topology_offcentres': from_topology with face_lon/face_lat, edge_node_connectivity,
     edge_lon/edge_lat supplied as keyword arguments, the centres being lattice directions that
     are NOT the nodal centroids / midpoints (off_face_dirs, off_edge_dir).
-    variant 'ugrid_offcentres': the same content as an in-memory UGRID dataset."""
+    variant 'ugrid_offcentres': the same content as an in-memory UGRID dataset.
+    variant 'topology_offcentres_rev': as topology_offcentres, the supplied edge table in reverse order."""
     import xarray as xr
 
     ux = hux.import_ux()
@@ -96,11 +97,13 @@ def build_grid(entry, variant="topology"):
     if variant in OFF_VARIANTS:
         fl = [lattice.lonlat_deg(d) for d in off_face_dirs(entry)]
         ep = edge_pairs(entry)
+        if variant == "topology_offcentres_rev":
+            ep = ep[::-1]  # the source numbers its edges in another order than the library would derive
         el = [lattice.lonlat_deg(off_edge_dir(entry, a, b)) for a, b in ep]
         f_lon, f_lat = np.array([a for a, _ in fl]), np.array([b for _, b in fl])
         e_lon, e_lat = np.array([a for a, _ in el]), np.array([b for _, b in el])
         en = np.array(ep, dtype=INT_DTYPE)
-        if variant == "topology_offcentres":
+        if variant in ("topology_offcentres", "topology_offcentres_rev"):
             return ux.Grid.from_topology(lon, lat, conn, fill_value=FILL, face_lon=f_lon, face_lat=f_lat, edge_lon=e_lon, edge_lat=e_lat, edge_node_connectivity=en)
         ds = xr.Dataset(
             {
@@ -293,8 +296,8 @@ def plan(ctx, cases, workers=8):
     os.remove(path)
     out = {}
     for v in r.prints:
-        if isinstance(v, tuple) and len(v) == 8 and v[0] == "P":
-            out[v[1]] = {"lt": list(v[2]), "cls": list(v[3]), "descr": [tuple(d) for d in v[4]], "anti": list(v[5]), "radii": [dict(x) for x in v[6]], "zero": sorted(v[7])}
+        if isinstance(v, tuple) and len(v) == 9 and v[0] == "P":
+            out[v[1]] = {"lt": list(v[2]), "cls": list(v[3]), "descr": [tuple(d) for d in v[4]], "anti": list(v[5]), "radii": [dict(x) for x in v[6]], "zero": sorted(v[7]), "purity": {"container": v[8]["container"], "batched": bool(v[8]["batched"]), "repeats": int(v[8]["repeats"]), "ops": list(v[8]["ops"])}}
     if len(out) != len(cases):
         raise Machinery("plan: %d of %d cases came back" % (len(out), len(cases)))
     return out
@@ -448,6 +451,48 @@ def float_radius_failed(d, r, res, scale=1.0):
         if d[e] > r + m and e in inside:
             out.add("RadiusExtra")
     return out
+
+
+def make_container(kind, rows, single):
+    """A caller-owned coordinate container of the given kind holding `rows` (list of coordinate
+    lists); single: one point passed as a 1-D container.  Returns (container, keepalive)."""
+    a = np.array(rows[0] if single else rows, dtype=float)
+    if kind == "f64":
+        return np.array(a, dtype=np.float64, order="C"), None
+    if kind == "f32":
+        return np.array(a, dtype=np.float32), None
+    if kind == "f64F":
+        return np.asfortranarray(a, dtype=np.float64), None
+    if kind == "view":
+        if single:
+            big = np.full(a.shape[0] + 4, 7.5)
+            big[2 : 2 + a.shape[0]] = a
+            return big[2 : 2 + a.shape[0]], big
+        big = np.full((2 * a.shape[0] + 1, a.shape[1] + 2), 7.5)
+        big[1::2, 1:-1] = a
+        return big[1::2, 1:-1], big
+    if kind == "list":
+        return ([float(x) for x in a] if single else [[float(x) for x in r] for r in a]), None
+    if kind == "tuple":
+        return (tuple(float(x) for x in a) if single else tuple(tuple(float(x) for x in r) for r in a)), None
+    raise Machinery("container kind " + kind)
+
+
+def fingerprint(c, keep=None):
+    """Deep fingerprint of a container (and of the array a view looks into)."""
+    if isinstance(c, np.ndarray):
+        fp = (str(c.dtype), c.shape, c.strides, c.tobytes())
+        return fp + ((keep.tobytes(),) if keep is not None else ())
+    return repr(c)
+
+
+GRID_VARS = [p + "_" + c for p in ("node", "face", "edge") for c in ("lon", "lat", "x", "y", "z")] + ["face_node_connectivity", "edge_node_connectivity"]
+
+
+def grid_fingerprint(g):
+    """Values of every coordinate and of the two basic connectivity tables of a grid (all of
+    them materialised by this call, so that a later lazy derivation is not mistaken for a change)."""
+    return {v: (str(np.asarray(getattr(g, v).values).dtype), np.asarray(getattr(g, v).values).tobytes()) for v in GRID_VARS}
 
 
 def flat_int(a):
